@@ -410,6 +410,15 @@ func c04Sort(list []string) (string, []string) {
 	return "", out
 }
 
+// c04OddBytes: all 256 byte values (used to mutate valid versions one byte at a time)
+var c04OddBytes = func() string {
+	b := make([]byte, 256)
+	for i := range b {
+		b[i] = byte(i)
+	}
+	return string(b)
+}()
+
 func runC04(c *hx.Ctx) {
 	r := c.Rng
 	draw := func() string {
@@ -419,6 +428,11 @@ func runC04(c *hx.Ctx) {
 		case k < 18:
 			return gen.Mutate(r, gen.Version(r), "v.0-+aA91")
 		case k < 19:
+			if r.Intn(2) == 0 {
+				// every byte value can occur next to valid identifiers: control characters, DEL,
+				// bytes that differ from a digit/letter/hyphen in one bit (0x0d, 0x10-0x19, '@', '[', '`', '{'), non-ASCII
+				return gen.Mutate(r, gen.Version(r), c04OddBytes)
+			}
 			// two edits: still close to the grammar
 			return gen.Mutate(r, gen.Mutate(r, gen.Version(r), "v.0-+aA91"), "v.0-+aA91")
 		default:
@@ -481,6 +495,14 @@ func runC04(c *hx.Ctx) {
 		}
 	}
 	rec("")
+	// every byte value in every identifier position class (exhaustive, 256 x 8 strings)
+	for b := 0; b < 256; b++ {
+		ch := string([]byte{byte(b)})
+		for _, v := range []string{"v1.2.3-rc1" + ch, "v1.2.3-" + ch + "rc", "v1.2.3-a." + ch, "v1.2.3+meta" + ch,
+			"v1.2.3+" + ch + "m", "v1.2.3-a+b." + ch, "v1.2.3" + ch, "v1" + ch + "2.3"} {
+			single(v)
+		}
+	}
 	for i := 0; i < c.N(6000); i++ {
 		single(draw())
 	}
